@@ -483,9 +483,47 @@ func (c *Ctx) createFunctionShapeRule(rule string, which string) {
 				// … and no variable is called like an import of the setup file: going round the loop means LookupPath(name) found
 				// nothing (`F(model *model.User) *model.UserDTO`: inside the function `model` is the parameter, and the qualified
 				// types, converters and hooks the body needs cannot be written)
-				notImport := c.M(false, func(t *core.Term) bool {
-					return t.Kind == "extract" && t.Name == "1" && t.Args[0].IsCallTo("("+pUtil+"ImportNames).LookupPath") && t.Args[0].Args[1].IsField("model.Var.Name")
-				})
+				// (asked of the file scope of the setup file – imports other than blank ones, declarations of the package, dot-imported
+				// and predeclared names – through a same-package helper whose answer is result 1 of (*types.Scope).LookupParent for
+				// its name parameter; the import table alone cannot tell a blank import, which hides nothing, from a named one)
+				scopeLookup := func(x *core.Term) bool {
+					if x.Kind != "call" || len(x.Args) < 2 || !x.Args[len(x.Args)-1].IsField("model.Var.Name") {
+						return false
+					}
+					for _, h := range c.P.Funcs() {
+						if (h.String() != x.Name && core.FuncName(h) != x.Name) || pkgOf(h) != pkgOf(cf) {
+							continue
+						}
+						nLook := 0
+						for _, ret := range core.Returns(h) {
+							t := c.O.Of(ret.Results[0])
+							if t.Is("const", "nil") {
+								continue
+							}
+							if t.Kind == "extract" && t.Name == "1" && t.Args[0].IsCallTo("(*go/types.Scope).LookupParent") && t.Args[0].Args[1].Kind == "param" {
+								nLook++
+							} else {
+								return false
+							}
+						}
+						return nLook > 0
+					}
+					return false
+				}
+				notImport := func(l core.Lit) bool {
+					t, pos := c.Canon(l)
+					// (ImportNames.LookupPath – the first form of the F75 repair – is not accepted: the table gives a blank import the
+					// last element of its path as a name, so `import _ "play/model"` made `F(model *A) *B` be refused although
+					// nothing is hidden: F79)
+					if pos && t.Kind == "binop" && t.Name == "==" {
+						for i := 0; i < 2; i++ {
+							if t.Args[1-i].Is("const", "nil") && scopeLookup(t.Args[i]) {
+								return true
+							}
+						}
+					}
+					return false
+				}
 				okImp, whyImp := true, ""
 				for _, p := range head.Preds {
 					if body[p] {
@@ -496,7 +534,7 @@ func (c *Ctx) createFunctionShapeRule(rule string, which string) {
 						}
 					}
 				}
-				r.Check(rule, FnKey(cf)+":no-import-names", c.Pos(cf.Pos()), okImp, "CreateFunction accepts a source, destination, receiver or additional argument named like an imported package: the name hides the package inside the emitted function (exit 0, `model.UserDTO is not a type`); the loop continues under "+whyImp)
+				r.Check(rule, FnKey(cf)+":no-import-names", c.Pos(cf.Pos()), okImp, "CreateFunction does not ask the file scope of the setup file whether a source, destination, receiver or additional argument hides an imported package, a declaration or a predeclared name the emitted function may need (exit 0, `model.UserDTO is not a type`; asking the import table instead refuses names of blank imports, which hide nothing); the loop continues under "+whyImp)
 			}
 		}
 		r.Check(rule, FnKey(cf)+":distinct-names", c.Pos(cf.Pos()), found, "CreateFunction does not refuse variable names that would be declared twice in the emitted function: "+why)
